@@ -35,6 +35,7 @@ PRECONDITION_CALLS = {
     ("rand::Rng", "gen_bool"): "a probability within [0, 1]",
     ("rand::seq::SliceRandom", "choose_multiple"): None,
     ("std::time::Instant", "duration_since"): None,
+    ("chrono::DateTime", "to_rfc2822"): "a year within 0..=9999 (RFC 2822 years have four digits)",
 }
 EXPLICIT_PANIC_MACROS = ("m:panic", "m:unreachable", "m:assert", "m:assert_eq", "m:assert_ne", "m:todo", "m:unimplemented", "m:debug_assert")
 
@@ -388,7 +389,30 @@ def g19_const_precondition(site, tests):
     return None
 
 
-GUARDS["precondition"] = (g19_const_precondition,)
+def g20_year_in_range(site, tests):
+    """d.to_rfc2822() reached only after `(lo..=hi).contains(&d.year())` with 0 <= lo and hi <= 9999"""
+    if site.kind != "precondition" or site.what.rsplit("::", 1)[1] != "to_rfc2822":
+        return None
+    f = site.fn
+    recv = site.ops[0]
+
+    def pred(atom, outcome):
+        if outcome is not True or atom[0] != "call" or atom[1].rsplit("::", 1)[1] != "contains" or len(atom[2]) != 2:
+            return False
+        rng, val = atom[2]
+        if not (rng[0] == "call" and rng[1].endswith("RangeInclusive::new") and len(rng[2]) == 2):
+            return False
+        lo, hi = _const_int(rng[2][0]), _const_int(rng[2][1])
+        if lo is None or hi is None or lo < 0 or hi > 9999:
+            return False
+        return val[0] == "call" and val[1].rsplit("::", 1)[1] == "year" and val[2] and val[2][0] == recv
+    for tb, sb in tests.blocks_where(pred):
+        if edge_dominates(f, tb, sb, site.block):
+            return "G20: reached only when the year is within 0..=9999"
+    return None
+
+
+GUARDS["precondition"] = (g19_const_precondition, g20_year_in_range)
 
 
 def discharge(site, tests_cache, extra=()):
